@@ -783,15 +783,14 @@ class MaterialIndexer(Indexer):
         if self is other or self.data is other.data: return # Same object or linked flows: nothing to copy
         phase_indexer = self._phase_indexer
         if isinstance(other, ChemicalIndexer):
+            other_data = other.data.copy() # `other` may be a phase view of this indexer
             self.empty()
-            other_data = other.data
             phase = other.phase
             if phase not in phase_indexer: self._expand_phases(phase)
             phase_index = self._phase_indexer(phase)
             if self.chemicals is other.chemicals:
                 self.data.rows[phase_index].copy_like(other_data)
             else:
-                other_data = other.data
                 left_index, right_index = index_overlap(self._chemicals, other._chemicals, [*other_data.nonzero_keys()])
                 self.data.rows[phase_index][left_index] = other_data[right_index] 
         else:
